@@ -46,3 +46,29 @@ package taint
 //@   ensures sound: result ==> (sem(v, isPositive) ==> accepted(v))
 //@   ensures nil_false: v == nil ==> !result
 //@   ensures only_conditions: result ==> istype(v, *ssa.Call) || istype(v, *ssa.BinOp) || istype(v, *ssa.UnOp) || istype(v, *ssa.Extract)
+
+// ---------------------------------------------------------------------------
+// C13: with the escape analysis on, every instruction carrying the source's marks
+// at a visited node that the escape analysis could NOT classify thread-local (its
+// entry in InstructionLocality is a non-nil rationale) is reported as an escape of
+// the current source -- for an arbitrary such instruction xi of the node's mark map
+// (iterated in arbitrary order). Call instructions are exempt (they do not access
+// memory themselves; their callees are checked in their own context).
+//@ func Visitor.checkEscape
+//@   property C13
+//@   ghost xi ssa.Instruction
+//@   requires v != nil && s != nil && node != nil && ref(node) != 0 && escapeInfo != nil && v.taints != nil && v.taints.Escapes != nil && s.Logger != nil && v.alarms != nil
+//@   ensures escape_recorded: has(node.Marks(), xi) && !istype(xi, *ssa.Call) && !istype(xi, *ssa.Go) && !istype(xi, *ssa.Defer) && has(escapeInfo.InstructionLocality, xi) && escapeInfo.InstructionLocality[xi] != nil ==> called(addNewEscape, _, _, xi)
+//@   loop instr invariant seen: visited(instr, xi) && !istype(xi, *ssa.Call) && !istype(xi, *ssa.Go) && !istype(xi, *ssa.Defer) && has(escapeInfo.InstructionLocality, xi) && escapeInfo.InstructionLocality[xi] != nil ==> called(addNewEscape, _, _, xi)
+
+// Frames of the callees of checkEscape: neither touches the locality maps.
+//@ func Visitor.raiseAlarm
+//@   property C13
+//@   requires v != nil && s != nil && s.Logger != nil && v.alarms != nil
+//@   modifies map(token.Pos;string)
+
+//@ func Flows.addNewEscape
+//@   property C13
+//@   requires m != nil && m.Escapes != nil
+//@   ensures recorded: escapeInstr != nil && dataflow.Instr(source.Node) != nil ==> has(m.Escapes, escapeInstr) && has(m.Escapes[escapeInstr], dataflow.Instr(source.Node))
+//@   modifies map(ssa.Instruction;map[ssa.Instruction]bool), map(ssa.Instruction;bool)
